@@ -42,6 +42,7 @@ class EvoWorld(World):
         ],
         "stub": [
             "cancellation: int_stop callable supplied by the simulator returns -1 at a recorded accepted-step count",
+            "terminal: with progbar=True the real tqdm progress bars run with output disabled",
         ],
     }
     ASSUMPTIONS = [
@@ -68,6 +69,9 @@ class EvoWorld(World):
             "int_stop": r.random() < 0.35,
             "real_h": r.random() < 0.3,
             "max_steps": r.choice([3, 5, 8]),
+            # progress reporting re-installs the integrator's step callback
+            # on every update_to (drawn last: earlier knobs keep their values)
+            "progbar": r.random() < 0.25,
         }
 
     # ------------------------------------------------------------------ setup
@@ -172,7 +176,23 @@ class EvoWorld(World):
                 return 0
             kw["int_stop"] = int_stop
         p0 = qu.qarray(self.p0)
-        st, evo = self.call(lambda: qu.Evolution(p0, self._ham_arg(), t0=self.t0, progbar=False, **kw))
+        self._unpatch = None
+        if kn.get("progbar"):
+            # the terminal is the seam: the real tqdm-based bars run, silenced
+            import functools
+
+            import quimb.evo as qevo
+
+            saved = (qevo.continuous_progbar, qevo.progbar)
+            qevo.continuous_progbar = functools.partial(saved[0], disable=True)
+            qevo.progbar = functools.partial(saved[1], disable=True)
+
+            def unpatch():
+                qevo.continuous_progbar, qevo.progbar = saved
+
+            self._unpatch = unpatch
+            self.stats.probe("progbar_runs")
+        st, evo = self.call(lambda: qu.Evolution(p0, self._ham_arg(), t0=self.t0, progbar=bool(kn.get("progbar")), **kw))
         if st == "rejected":
             self.stats.outcome("combination_rejected")
             self.stats.probe(f"rejected:{kn['method']}:{kn['state']}:{kn['hkind']}")
@@ -184,6 +204,8 @@ class EvoWorld(World):
         self._check("construction", None)
 
     def close(self):
+        if getattr(self, "_unpatch", None):
+            self._unpatch()
         if self.gen is not None:
             try:
                 self.gen.close()
@@ -434,5 +456,7 @@ class EvoWorld(World):
             yield {**knobs, "compute": "none"}
         if knobs["int_stop"]:
             yield {**knobs, "int_stop": False}
+        if knobs.get("progbar"):
+            yield {**knobs, "progbar": False}
         if knobs["hkind"] != "dense":
             yield {**knobs, "hkind": "dense"}
